@@ -119,8 +119,9 @@ func (b *bytecode) compile(c *Compiler, expr ast.Expr, env *val.Env) {
 
 	case *ast.MemberExpr:
 		b.compile(c, e.Obj, env)
+		// the operand is the field name: equal object types need not share a field order
 		b.emitOP(OP_OBJ_LOAD)
-		b.emitMediumInt(e.Index)
+		b.emitConst(e.Field.Name)
 
 	default:
 		util.Unreachable()
